@@ -348,3 +348,127 @@ Definition seq_text (out0 : bytes) (Ts : list (list bytes)) : bytes := out0 ++ c
 Definition all_vtasks (K : nat) : list vtask := VDriver :: VJoin :: VMain :: map VFile (seq 0 K).
 Fixpoint vrounds (n : nat) (l : list vtask) : list vtask :=
   match n with O => [] | S m => l ++ vrounds m l end.
+
+(* ================================================================== several lanes (part 3)
+   write_chroms_with_zooms: every chromosome has one handle channel / write task / staging buffer per
+   LANE: lane 0 is the data region (destination: the real file), lane z >= 1 is zoom level z
+   (destination: that level's own staging writer, an append-only byte store: the zoom data are
+   buffered twice).  The lanes share the main thread (start/advance act on all lanes of a chromosome)
+   and the splice task, whose loop body is
+     switch lane 0; switch lanes 1..L-1;  await task 0; file0 = await_real_file;
+     for z in 1..L-1 { await task z; file_z = await_real_file }
+   Proofs/PipelineLanes.v shows that the projection of every run onto one lane is a run of the
+   single-lane machine above (with stutters), so all its theorems hold per lane. *)
+Inductive lphase :=
+| LRecv
+| LSwitch (j : nat)        (* lanes < j are switched; about to switch lane j (1 <= j < L) *)
+| LAwaitTask (j : nat)     (* all lanes switched, lanes < j handed back; awaiting the write task of lane j *)
+| LAwaitFile (j : nat)     (* at await_real_file of lane j *)
+| LDone.
+
+Record lst := mkl {
+  l_lanes : list (list chrom);    (* lane -> chromosome -> state; every lane has the same K chromosomes *)
+  l_started : nat; l_advanced : nat; l_closed : bool;
+  l_k : nat; l_ph : lphase;
+  l_files : list bytes            (* destination of each lane *)
+}.
+Inductive ltask := LMain | LProd (l k : nat) | LEnc (l k i : nat) | LWrite (l k : nat) | LSplice.
+
+Definition lane_K (s : lst) : nat := length (nth 0 (l_lanes s) []).
+Definition todo_done (a : nat) (ln : list chrom) : bool :=
+  match nth_error ln a with Some c => match c_todo c with [] => true | _ => false end | None => false end.
+Definition close_at (a : nat) (ln : list chrom) : list chrom :=
+  match nth_error ln a with Some c => set_nth a (close_sender c) ln | None => ln end.
+
+Definition lmain_step (win : nat) (s : lst) : option lst :=
+  let K := lane_K s in
+  if l_closed s then None
+  else if (l_started s <? K)%nat && (l_started s - l_advanced s <? win)%nat then
+    Some (mkl (l_lanes s) (S (l_started s)) (l_advanced s) false (l_k s) (l_ph s) (l_files s))
+  else if (l_advanced s <? l_started s)%nat then
+    if forallb (todo_done (l_advanced s)) (l_lanes s)
+    then Some (mkl (map (close_at (l_advanced s)) (l_lanes s)) (l_started s) (S (l_advanced s)) false
+                   (l_k s) (l_ph s) (l_files s))
+    else None
+  else if (K <=? l_started s)%nat then
+    Some (mkl (l_lanes s) (l_started s) (l_advanced s) true (l_k s) (l_ph s) (l_files s))
+  else None.
+
+Definition lon_chrom (l k : nat) (f : chrom -> option chrom) (s : lst) : option lst :=
+  if (k <? l_started s)%nat then
+    match nth_error (l_lanes s) l with
+    | Some ln =>
+        match nth_error ln k with
+        | Some c => match f c with
+                    | Some c' => Some (mkl (set_nth l (set_nth k c' ln) (l_lanes s)) (l_started s) (l_advanced s)
+                                           (l_closed s) (l_k s) (l_ph s) (l_files s))
+                    | None => None
+                    end
+        | None => None
+        end
+    | None => None
+    end
+  else None.
+
+Definition lane_wdone (s : lst) (j : nat) : option chrom :=
+  match nth_error (l_lanes s) j with
+  | Some ln => match nth_error ln (l_k s) with
+               | Some c => if c_wdone c then Some c else None
+               | None => None
+               end
+  | None => None
+  end.
+Definition after_switch (L j : nat) : lphase := if (S j <? L)%nat then LSwitch (S j) else LAwaitTask 0.
+
+Definition lsplice_step (s : lst) : option lst :=
+  let L := length (l_lanes s) in
+  let set_ph ph := mkl (l_lanes s) (l_started s) (l_advanced s) (l_closed s) (l_k s) ph (l_files s) in
+  match l_ph s with
+  | LRecv =>
+      if (l_k s <? l_started s)%nat then Some (set_ph (after_switch L 0))
+      else if l_closed s then Some (set_ph LDone) else None
+  | LSwitch j =>
+      if (l_k s <? l_started s)%nat && (j <? L)%nat then Some (set_ph (after_switch L j)) else None
+  | LAwaitTask j =>
+      match lane_wdone s j with Some _ => Some (set_ph (LAwaitFile j)) | None => None end
+  | LAwaitFile j =>
+      match lane_wdone s j with
+      | Some c =>
+          let files := set_nth j (nth j (l_files s) [] ++ data_bytes (c_out c)) (l_files s) in
+          if (S j <? L)%nat
+          then Some (mkl (l_lanes s) (l_started s) (l_advanced s) (l_closed s) (l_k s) (LAwaitTask (S j)) files)
+          else Some (mkl (l_lanes s) (l_started s) (l_advanced s) (l_closed s) (S (l_k s)) LRecv files)
+      | None => None
+      end
+  | LDone => None
+  end.
+
+Definition lstep (g : params) (t : ltask) (s : lst) : option lst :=
+  match t with
+  | LMain => lmain_step (g_win g) s
+  | LProd l k => lon_chrom l k (prod_step (g_cap g)) s
+  | LEnc l k i => lon_chrom l k (enc_step i) s
+  | LWrite l k => lon_chrom l k (write_step (g_fifo g)) s
+  | LSplice => lsplice_step s
+  end.
+Definition lstep_or_stay (g : params) (t : ltask) (s : lst) : lst :=
+  match lstep g t s with Some s' => s' | None => s end.
+Fixpoint lrun (g : params) (sched : list ltask) (s : lst) : lst :=
+  match sched with [] => s | t :: r => lrun g r (lstep_or_stay g t s) end.
+(* [Ps]: what each lane's destination holds initially; [Sss]: lane -> chromosome -> sections *)
+Definition linit (Ps : list bytes) (Sss : list (list (list sdata))) : lst :=
+  mkl (map (map init_chrom) Sss) 0 0 false 0 LRecv Ps.
+Definition lterminal (s : lst) : bool := match l_ph s with LDone => true | _ => false end.
+
+(* the single-lane state that lane l is in *)
+Definition proj_pos (l : nat) (k : nat) (ph : lphase) : nat * spc :=
+  match ph with
+  | LRecv => (k, SRecv)
+  | LSwitch j => (k, if (l <? j)%nat then SAwaitTask else SRecv)
+  | LAwaitTask j => if (l <? j)%nat then (S k, SRecv) else (k, SAwaitTask)
+  | LAwaitFile j => if (l <? j)%nat then (S k, SRecv) else if (l =? j)%nat then (k, SAwaitFile) else (k, SAwaitTask)
+  | LDone => (k, SDone)
+  end.
+Definition proj (l : nat) (s : lst) : pst :=
+  let (k, pc) := proj_pos l (l_k s) (l_ph s) in
+  mkp (nth l (l_lanes s) []) (l_started s) (l_advanced s) (l_closed s) k pc (nth l (l_files s) []).
